@@ -1,1 +1,39 @@
-fn main(){ println!("tv"); }
+mod c04;
+mod enc;
+mod gen;
+mod grid;
+mod ir;
+mod lx;
+mod px;
+mod smt;
+mod tvq;
+
+use serde_json::json;
+
+fn main() {
+    let args: Vec<String> = std::env::args().collect();
+    let cmd = args.get(1).map(|s| s.as_str()).unwrap_or("");
+    let thorough = std::env::var("VERIF_TIER").map(|t| t == "thorough").unwrap_or(false);
+    match cmd {
+        "grid" => {
+            let mut duo = smt::Duo::new(20000, false);
+            let t0 = std::time::Instant::now();
+            let rep = grid::validate(&mut duo, thorough);
+            println!(
+                "{}",
+                json!({"templates": rep.templates, "points": rep.points, "mismatches": rep.mismatches, "unsupported": rep.unsupported,
+                       "secs": t0.elapsed().as_secs_f64(), "solver_secs": duo.secs()})
+            );
+        }
+        "c04" => {
+            let seed: u64 = std::env::var("VERIF_SEED").ok().and_then(|s| s.parse().ok()).unwrap_or(0);
+            let threads: usize = std::env::var("VERIF_THREADS").ok().and_then(|s| s.parse().ok()).unwrap_or(8);
+            let out = c04::run(thorough, seed, threads);
+            println!("{}", out);
+        }
+        _ => {
+            eprintln!("usage: tv <grid|c04|...>");
+            std::process::exit(2);
+        }
+    }
+}
